@@ -92,6 +92,9 @@ def cases(tier, seed):
             yield {"k": "C", "tree": tname, "history": h}
         for e1, e2 in itertools.product(RB.inplace_edits(), repeat=2):
             yield {"k": "C", "tree": tname, "history": ["inplace", e1, e2]}
+    # the same Op objects (incl. identities spelled over several dofs, with prefactors) for basis lists that group the dofs differently
+    for a, b in itertools.permutations(RB.regroupings(), 2):
+        yield {"k": "C", "tree": "per-basis-set", "history": ["regroup", a, b]}
     yield from cases_(tier, seed)
 
 
@@ -183,6 +186,28 @@ def run_history(desc, seed):
     V = RB.variants()
     viol = {}
     nb = 0
+    if desc["history"][0] == "regroup":
+        G = RB.regroupings()
+        terms = RB.regroup_terms()
+        for step, name in enumerate(desc["history"][1:]):
+            basis = G[name]
+            ref = RB.dense_of_ops(basis, terms)
+            m = len(basis)
+            for tname, parent, groups in (("linear", list(range(-1, m - 1)), [[i] for i in range(m)]), ("star", [-1] + [0] * (m - 1), [[i] for i in range(m)]),
+                                          ("all-on-one-node", [-1], [list(range(m))])):
+                for algo in ("Hopcroft-Karp", "qr"):
+                    try:
+                        tree = TR.build_basis_tree(parent, groups, basis)
+                        got = np.asarray(TTNO(tree, terms, algo=algo).todense(list(basis)))
+                    except Exception as e:
+                        sig = f"C02:history:regroup:exception:{type(e).__name__}:{'first' if step == 0 else 'later'}"
+                        viol.setdefault(sig, {"sig": sig, "msg": f"history {desc['history']} step {step} ({name}, {tname}, {algo}): {e!r}"})
+                        continue
+                    nb += 1
+                    if not close(got, ref, 1e-9):
+                        sig = f"C02:history:regroup:mismatch:{'first' if step == 0 else 'later'}-construction"
+                        viol.setdefault(sig, {"sig": sig, "msg": f"the same Op objects used for {desc['history'][1:]}: TTNO number {step + 1} ({name}, {tname} tree, {algo}) differs from its dense reference by rel {rel_err(got, ref):.2e}"})
+        return {"nontrivial": nb >= 2, "counters": {"history_constructions": nb}, "outcome": f"history:{'viol' if viol else 'ok'}", "viol": list(viol.values()), "sample": {"desc": desc}}
     parent, groups = HISTORY_TREES[desc["tree"]]
     if desc["history"][0] == "inplace":
         # ONE tree object and ONE term-list object; the list is edited in place between the constructions
